@@ -98,10 +98,14 @@ def drive(rec):
     cr = xtal.build_crystal(rec)
     d = tlc.scratch_dir("c10-%d" % os.getpid())
     try:
-        if prov == "loaded-cif":
-            cr = Crystal.from_cif_string(cr.to_cif_string())
-        elif prov == "loaded-res":
-            cr = Crystal.from_shelx_string(cr.to_shelx_string())
+        try:
+            if prov == "loaded-cif":
+                cr = Crystal.from_cif_string(cr.to_cif_string())
+            elif prov == "loaded-res":
+                cr = Crystal.from_shelx_string(cr.to_shelx_string())
+        except Exception as e:      # the first leg of the chain is itself a save + load: its failure is an observation
+            t["write_exc"] = "provenance-" + prov + ":" + type(e).__name__
+            return t
         t["ops"] = [int(s.integer_code) for s in cr.space_group.symmetry_operations]
         t["cell"] = cell_ints(cr)
         # the crystal being written is the reference: project *it* (a loaded crystal may legitimately differ from the
